@@ -20,8 +20,8 @@ pub enum SigOp {
     Identity,
     /// same point, different projective representation: must still be accepted
     Repr,
-    /// sig + a point outside the subgroup, presented through Signature::try_from (decoder must refuse it)
-    AddTorsion,
+    /// sig + a point outside the subgroup, presented through a decoder (0 bytes, 1 serde_bare, 2 serde_json)
+    AddTorsion(u8),
 }
 #[derive(Copy, Clone, Debug, PartialEq, Eq, Hash, Serialize, Deserialize)]
 pub enum MsgOp {
@@ -42,8 +42,8 @@ pub enum PkOp {
     Neg,
     Identity,
     Repr,
-    /// pk + a point outside the subgroup, presented through PublicKey::try_from
-    AddTorsion,
+    /// pk + a point outside the subgroup, presented through a decoder (0 bytes, 1 serde_bare, 2 serde_json)
+    AddTorsion(u8),
 }
 
 #[derive(Clone, Debug, PartialEq, Eq, Hash, Serialize, Deserialize)]
@@ -191,14 +191,16 @@ impl<C: Suite> Model for M02<C> {
                     SigOp::OtherKey,
                     SigOp::Identity,
                     SigOp::Repr,
-                    SigOp::AddTorsion,
+                    SigOp::AddTorsion(0),
+                    SigOp::AddTorsion(1),
+                    SigOp::AddTorsion(2),
                 ] {
                     a.push(Act::Sig(o));
                 }
                 for o in self.msg_ops(st.m) {
                     a.push(Act::Msg(o));
                 }
-                for o in [PkOp::Other, PkOp::AddG, PkOp::Neg, PkOp::Identity, PkOp::Repr, PkOp::AddTorsion] {
+                for o in [PkOp::Other, PkOp::AddG, PkOp::Neg, PkOp::Identity, PkOp::Repr, PkOp::AddTorsion(0), PkOp::AddTorsion(1), PkOp::AddTorsion(2)] {
                     a.push(Act::Pk(o));
                 }
                 for l in SCHEMES {
@@ -291,13 +293,19 @@ impl<C: Suite> Model for M02<C> {
                 SigOp::OtherKey => *sk2.sign(lscheme, msg0).unwrap().as_raw_value(),
                 SigOp::Identity => SgP::<C>::identity(),
                 SigOp::Repr => (honest + gen_s) - gen_s,
-                SigOp::AddTorsion => {
-                    // through the byte decoder: one scheme byte + compressed point
-                    let mut wire = Vec::<u8>::from(&mk_sig::<C>(st.s, honest));
+                SigOp::AddTorsion(dec) => {
+                    // through a decoder: one scheme byte + compressed point (bytes / serde_bare), or the JSON document
+                    let hs = mk_sig::<C>(st.s, honest);
+                    let mut wire = Vec::<u8>::from(&hs);
                     let tb = rf::torsion_perturbed(&wire[1..]).expect("torsion point");
+                    let json = String::from_utf8(serde_json::to_vec(&hs).unwrap()).unwrap().replace(&hex::encode(&wire[1..]), &hex::encode(&tb));
                     wire.truncate(1);
                     wire.extend_from_slice(&tb);
-                    match guard(|| Signature::<C>::try_from(wire.as_slice())) {
+                    match guard(|| match dec {
+                        0 => Signature::<C>::try_from(wire.as_slice()).map_err(|e| e.to_string()),
+                        1 => serde_bare::from_slice::<Signature<C>>(&wire).map_err(|e| e.to_string()),
+                        _ => serde_json::from_str::<Signature<C>>(&json).map_err(|e| e.to_string()),
+                    }) {
                         Ok(Ok(sg)) => *sg.as_raw_value(),
                         Ok(Err(_)) => {
                             o.outcome("torsion:decoder-refuses");
@@ -313,6 +321,9 @@ impl<C: Suite> Model for M02<C> {
             };
             if op != SigOp::Repr {
                 expect_accept = false;
+            }
+            if matches!(op, SigOp::AddTorsion(_)) {
+                opclass = "sig.AddTorsion".into();
             }
         }
         let mut msg = msg0.clone();
@@ -350,9 +361,13 @@ impl<C: Suite> Model for M02<C> {
                 PkOp::Neg => -pk,
                 PkOp::Identity => PkP::<C>::identity(),
                 PkOp::Repr => (pk + gen_p) - gen_p,
-                PkOp::AddTorsion => {
+                PkOp::AddTorsion(dec) => {
                     let tb = rf::torsion_perturbed(&pt(&pk)).expect("torsion point");
-                    match guard(|| PublicKey::<C>::try_from(tb.as_slice())) {
+                    match guard(|| match dec {
+                        0 => PublicKey::<C>::try_from(tb.as_slice()).map_err(|e| e.to_string()),
+                        1 => serde_bare::from_slice::<PublicKey<C>>(&tb).map_err(|e| e.to_string()),
+                        _ => serde_json::from_str::<PublicKey<C>>(&format!("\"{}\"", hex::encode(&tb))).map_err(|e| e.to_string()),
+                    }) {
                         Ok(Ok(k)) => k.0,
                         Ok(Err(_)) => {
                             o.outcome("torsion:decoder-refuses");
@@ -368,6 +383,9 @@ impl<C: Suite> Model for M02<C> {
             };
             if op != PkOp::Repr {
                 expect_accept = false;
+            }
+            if matches!(op, PkOp::AddTorsion(_)) {
+                opclass = opclass.split("pk.").next().unwrap_or("").to_string() + "pk.AddTorsion";
             }
         }
         let mut label = st.s;
